@@ -4,6 +4,7 @@
 From Coq Require Import String List NArith ZArith Bool.
 From J5V.lib Require Import Outcome Corr.
 From J5V.model Require Import RulesDecl RulesWrite RulesRead RulesEnum RulesCorr.
+From J5V.model Require ProtoPrintFile ProtoPrintFileWf RulesView RulesTextModel.
 Import ListNotations.
 
 Definition oZ_eq_dec : forall a b : option Z, {a = b} + {a <> b}.
@@ -24,6 +25,10 @@ Definition ekey_eq_dec : forall a b : ekey, {a = b} + {a <> b}.
 Proof. decide equality; try apply str_eq_dec; apply bool_dec. Defined.
 Definition entity_key_eq_dec : forall a b : entity_key, {a = b} + {a <> b}.
 Proof. decide equality; [apply ostr_eq_dec | decide equality; apply ekey_eq_dec]. Defined.
+Definition ts_rules_eq_dec : forall a b : ts_rules, {a = b} + {a <> b}.
+Proof. decide equality; try apply obool_eq_dec; apply oZ_eq_dec. Defined.
+Definition obj_rules_eq_dec : forall a b : obj_rules, {a = b} + {a <> b}.
+Proof. decide equality; apply oN_eq_dec. Defined.
 Definition olpay_eq_dec : forall a b : option lpay, {a = b} + {a <> b}.
 Proof. decide equality; apply lpay_eq_dec. Defined.
 Definition fty_eq_dec : forall a b : fty, {a = b} + {a <> b}.
@@ -32,7 +37,8 @@ Proof.
     try apply ostr_eq_dec; try (apply list_eq_dec; apply str_eq_dec);
     try (decide equality; first [apply int_rules_eq_dec | apply str_rules_eq_dec | apply len_rules_eq_dec
                                 | apply enum_rules_eq_dec | apply kfmt_eq_dec | apply entity_key_eq_dec
-                                | apply txt_rules_eq_dec | apply obool_eq_dec]).
+                                | apply txt_rules_eq_dec | apply obool_eq_dec
+                                | apply ts_rules_eq_dec | apply obj_rules_eq_dec]).
 Defined.
 Definition map_rules_eq_dec : forall a b : map_rules, {a = b} + {a <> b}.
 Proof. decide equality; apply oN_eq_dec. Defined.
@@ -59,12 +65,19 @@ Fixpoint list_eqb2 {A B} (f : A -> B -> bool) (a : list A) (b : list B) : bool :
 (* an object: environment, declared properties, the annotations emitted for
    them, and what the reflector read back (None: a reflected property the
    declaration language cannot express) *)
-Definition value3_eq_dec : forall a b : str * Z * str, {a = b} + {a <> b}.
-Proof. decide equality; [apply str_eq_dec | decide equality; [apply Z.eq_dec | apply str_eq_dec]]. Defined.
+Definition oinfo_eq_dec : forall a b : oinfo, {a = b} + {a <> b}.
+Proof. apply list_eq_dec. decide equality; apply str_eq_dec. Defined.
+Definition infofield_eq_dec : forall a b : infofield, {a = b} + {a <> b}.
+Proof. decide equality; [apply str_eq_dec | decide equality; apply str_eq_dec]. Defined.
+Definition value3_eq_dec : forall a b : str * Z * str * oinfo, {a = b} + {a <> b}.
+Proof.
+  decide equality; [apply oinfo_eq_dec|].
+  decide equality; [apply str_eq_dec | decide equality; [apply Z.eq_dec | apply str_eq_dec]].
+Defined.
 Definition enum_out_eq_dec : forall a b : enum_out, {a = b} + {a <> b}.
-Proof. decide equality; [apply list_eq_dec; apply value3_eq_dec | apply str_eq_dec]. Defined.
+Proof. decide equality; [apply list_eq_dec; apply infofield_eq_dec | apply list_eq_dec; apply value3_eq_dec | apply str_eq_dec]. Defined.
 Definition renum_eq_dec : forall a b : renum, {a = b} + {a <> b}.
-Proof. decide equality; try apply str_eq_dec; apply list_eq_dec; apply value3_eq_dec. Defined.
+Proof. decide equality; try apply str_eq_dec; apply list_eq_dec; first [apply value3_eq_dec | apply infofield_eq_dec]. Defined.
 
 Inductive c04case :=
 | C04Case (env : enum_env) (ds : list prop) (obs : list fout) (refl : outcome (list (option rprop)))
@@ -73,7 +86,28 @@ Inductive c04case :=
 | C04Enum (e : enum_decl) (obs : enum_out) (refl : outcome renum)
 (* the printed text: annotations of the in-memory fields, annotations of the
    fields after print + parse, and whether the two reflected schemas were equal *)
-| C04Text (mem txt : list fout) (same_schema : bool).
+| C04Text (mem txt : list fout) (same_schema : bool)
+(* the head of a root schema: declared kind / name / description; name, leading comment
+   and (j5.ext.v1.message) arm of the compiled message; kind / name / description reflected *)
+| C04Root (k : rkind) (name desc : str) (obs_name obs_comment : str) (obs_opt : option rkind)
+          (refl : option (rkind * str * str))
+(* the decoder of C04_text_concrete: a compiled field as a descriptor of the file
+   model of family tool (label, type, names, comment, option trees), and the
+   annotation record this harness dumps for the same field *)
+| C04View (df : ProtoPrintFile.dfield) (fo : fout)
+(* a whole compiled file as a descriptor of the file model, the types of its imports, the
+   name of the root message, and what the real reflector read from the really printed
+   and re-parsed text of that file *)
+| C04File (env : enum_env) (imp : ProtoPrintFile.xsymtab) (d : ProtoPrintFile.dfile) (name : str)
+          (text_refl : outcome (list (option rprop))).
+
+(* options on the value field of a map entry (the key annotation) are not part of the file model *)
+Definition drop_map_key (o : fout) : fout :=
+  match fo_kind o with
+  | KdMapEntry _ => FO (fo_json o) (fo_name o) (fo_number o) (fo_kind o) (fo_rep o) (fo_opt o) (fo_pres o)
+                       (fo_val o) (fo_ext o) (fo_list o) None (fo_desc o)
+  | _ => o
+  end.
 
 (* per property: is the reflected property the declared one (RulesRead.norm_prop)? *)
 Fixpoint declared_eq (env : enum_env) (idx : N) (ds : list prop) (rs : list (option rprop)) : list bool :=
@@ -111,6 +145,31 @@ Definition c04_check (c : c04case) : bool :=
       (* the text clause: where the reader's view of the fields is the same, the
          reflected schemas are (C04_text_clause) *)
       implb (list_eqb (fun a b => fout_eqb (c04_proj a) (c04_proj b)) mem txt) same_schema
+  | C04Root k name desc obs_name obs_comment obs_opt refl =>
+      (* write_root / read_root / norm_root on an object without properties: the head only *)
+      let rk_eqb (a b : rkind) := match a, b with RObject, RObject | ROneof, ROneof => true | _, _ => false end in
+      match write_root (EE [] None []) (RD k name desc []) with
+      | Ok o => str_eqb (ro_name o) obs_name && str_eqb (ro_comment o) obs_comment
+                && match ro_msgopt o, obs_opt with Some a, Some b => rk_eqb a b | None, None => true | _, _ => false end
+      | _ => false
+      end &&
+      match read_root (EE [] None []) (RO obs_name obs_comment obs_opt []), refl with
+      | Ok r, Some (k', n', d') => rk_eqb (rr_kind r) k' && str_eqb (rr_name r) n' && str_eqb (rr_desc r) d'
+      | Err _, None => true
+      | _, _ => false
+      end
+  | C04View df fo =>
+      fout_eqb (c04_proj (RulesView.view_field df)) (c04_proj (drop_map_key fo))
+  | C04File env imp d name text_refl =>
+      (* the hypotheses of C04_text_checked hold of the real descriptor, and the model chain
+         print -> parse -> decode -> read yields what the real text path yields *)
+      ProtoPrintFileWf.wf_dfile_b imp d && RulesTextModel.file_in_order_b d &&
+      match RulesTextModel.read_msg_text env imp name d, text_refl with
+      | Some (Ok ps), Ok rs =>
+          list_eqb2 (fun p r => match r with Some r => rprop_eqb p r | None => false end) ps rs
+      | Some (Err _), Err _ => true
+      | _, _ => false
+      end
   | C04Enum e obs refl =>
       (if enum_out_eq_dec (write_enum e) obs then true else false) &&
       match read_enum obs, refl with
